@@ -94,6 +94,8 @@ func NewQuery(sql string) (*Command, error) {
 }
 
 func QuoteString(str string) string {
+	// the parser that reads the result treats backslash as an escape character
+	str = strings.ReplaceAll(str, "\\", "\\\\")
 	return "'" + strings.ReplaceAll(str, "'", "''") + "'"
 }
 
